@@ -67,7 +67,7 @@ CODE_SWEEP = (
 )
 
 
-QUICK_BUDGET = {"cases": 300, "deadline_s": 110, "case_timeout_s": 150, "floors": {"rows_checked": 400, "codes_covered_events": 2 * len(CODE_SWEEP), "sacct_batches_checked": 2, "noacct_checked": 10, "pool_rows": 6}}
+QUICK_BUDGET = {"cases": 300, "deadline_s": 170, "case_timeout_s": 150, "floors": {"rows_checked": 246, "codes_covered_events": 59, "sacct_batches_checked": 2, "noacct_checked": 10, "pool_rows": 6}}
 THOROUGH_FACTOR = 24  # thorough = the same workload with 24x the cases (floors scale along)
 
 
